@@ -6,7 +6,7 @@ Import ListNotations.
 From CA Require Import Model.Lexer Model.Parser Model.Literal Model.BigIntOps Model.Evaluator Model.Matcher Model.Resolver
   Model.Resolver2 Model.StaticKnown Model.ResolverS Model.ResolverS2 Spec.StaticSpec
   Proofs.ResolverFixP Proofs.CertUniqueP Proofs.StaticKnownP Proofs.ResolverSSimP Proofs.ResolverSPreP
-  Proofs.Resolver2FixP Proofs.Resolver2MonoP Proofs.Resolver2TopP Proofs.ResolverS2P Proofs.ResolverS2PreP Proofs.ResolverSTopP Proofs.C01Sound Proofs.MatcherKindP.
+  Proofs.Resolver2FixP Proofs.Resolver2MonoP Proofs.Resolver2TopP Proofs.ResolverS2P Proofs.ResolverS2PreP Proofs.ResolverS2FrameP Proofs.ResolverSTopP Proofs.C01Sound Proofs.MatcherKindP.
 From CA Require Model.Paths Model.Overlap Model.Cursor Model.LastPass Model.Output Model.Symbols.
 Open Scope Z_scope.
 
@@ -163,6 +163,15 @@ Definition outT2 (m : Symbols.mgr) (banks : list Cursor.bank) (ns : list cnode) 
 Lemma lockstep2_out m banks ns F T : lockstep2 F T -> outT2 m banks ns T = outF2 m banks ns F.
 Proof. unfold lockstep2, outT2. destruct F as [[st n]| |]; [intros (x' & -> & <-); reflexivity|intros ->; reflexivity|intros ->; reflexivity]. Qed.
 
+Lemma init2_data_length indexed defs nsyms ns st0 : init_state2 indexed defs nsyms ns = Some st0 ->
+  length (s_data st0) = length (flat_map dref ns).
+Proof.
+  unfold init_state2. cbv zeta.
+  match goal with |- (if ?q then _ else _) = _ -> _ => destruct q; [discriminate|] end.
+  intro H. inversion H; subst; clear H. cbn [s_data].
+  induction ns as [|[n cn] r IH]; [reflexivity|]. cbn [flat_map]. rewrite !app_length, IH. f_equal. destruct n; reflexivity.
+Qed.
+
 Section Runs2.
 Variable indexed : bool.
 Variable defs : list ruledef.
@@ -231,7 +240,7 @@ Lemma prepass2 :
   match simple_loop2 (S (length ns)) m ns st0 0 with
   | EErr => simple_loop2S (S (length ns)) m K opt ns (init_sstate st0) 0 = EErr
   | EOk st1 => exists x1, simple_loop2S (S (length ns)) m K opt ns (init_sstate st0) 0 = EOk x1 /\ ss x1 = st1 /\
-                          Inv2 m defs max_bits ns K opt x1 /\ labels_ok2 ns st1
+                          Inv2 m defs max_bits ns K opt x1 /\ labels_ok2 ns st1 /\ s_data st1 = s_data st0
   end.
 Proof.
   destruct (prepare_facts _ _ _ Hprep) as ((Ns & Ni & Nd) & Hrange & _ & _ & _).
@@ -242,7 +251,7 @@ Proof.
   pose proof (prepare_distinct _ _ _ Hprep) as Hdist.
   assert (Hl : labels_ok2 ns st1).
   { eapply simple_loop2_labels_ok; [exact Hdist| |exact E]. eapply init2_labels_ok; exact Hinit. }
-  split; [|exact Hl].
+  cut (Inv2 m defs max_bits ns K opt x1 /\ s_data st1 = s_data st0); [intros [A B]; auto|].
   assert (Q : (opt = true -> good2 ns st1) /\ s_instr st1 = s_instr st0 /\ s_data st1 = s_data st0).
   { clear H1 H2 P1 P2 H4 H5 Hl x1.
     assert (Gn : forall fuel st prev st', simple_loop2 fuel m ns st prev = EOk st' ->
@@ -264,7 +273,7 @@ Proof.
         + destruct (IH sta c st' Hs) as (I1 & I2 & I3); [congruence|intro Ho; left; exact (R1 Ho)|].
           split; [exact I1|]. split; congruence. }
     apply (Gn _ _ _ _ E); [rewrite (proj1 init2_shape); apply repeat_length|]. intros _. right. lia. }
-  destruct Q as (Q1 & Q2 & Q3). subst st1.
+  destruct Q as (Q1 & Q2 & Q3). subst st1. split; [|exact Q3].
   split; [|split; [|split; [|split]]].
   - intro Ho. split; [exact (Q1 Ho)|]. eapply kinstr2_same; [exact Q2|exact (kinstr0_2 Ho)].
   - intros i F. rewrite H4 in F. cbn [init_sstate fz_instr] in F. rewrite flag_repeat_false in F. discriminate.
@@ -298,22 +307,25 @@ Lemma runs2 :
     (forall w d e c, In (XData w d e, c) ns -> data_known e = true -> elem_strict_ok w e = true) /\
     (forall w d e c, In (XData w d e, c) ns -> flag (k_data K) d = true -> data_known e = true) /\
     (opt = true -> canonical2 ns) /\
+    (forall d, In d (flat_map dref ns) -> (d < length (s_data (ss x1)))%nat) /\
     forall b, assembleS2 ac pc opt indexed defs ps b = outT2 m banks ns (loop2S m banks defs max_bits K opt ns b 0 b x1) /\
               assemble2 indexed defs ps b = outF2 m banks ns (loop2 m banks defs max_bits ns b 0 b (ss x1)).
 Proof.
   destruct Hwf as [Hpats Hw]. unfold assembleS2, assemble2, setup.
   destruct (prepare ps) as [[m ns]|] eqn:P; [|left; auto].
   destruct (Hw m ns eq_refl) as (Hres & Hok & Hasm).
-  destruct (prepare_facts _ _ _ P) as (Hc & _ & _ & _ & Hm). rewrite Hm.
+  destruct (prepare_facts _ _ _ P) as (Hc & _ & _ & (nd & Hnd) & Hm). rewrite Hm.
   destruct (init_state2 indexed defs (length (Symbols.m_decls m)) ns) as [st0|] eqn:E0; [|left; auto].
   pose proof (prepass2 indexed defs ps ac pc opt m ns P Hok Hflags Hasm Hpats st0 E0) as H.
   destruct (simple_loop2 (S (length ns)) m ns st0 0) as [st1|]; [|left; intro b; rewrite H; auto].
-  destruct H as (x1 & H1 & H2 & HI & Hl). rewrite H1. subst st1.
+  destruct H as (x1 & H1 & H2 & HI & Hl & Hsd). rewrite H1. subst st1.
   destruct (define_banks m (ss x1) (bank_fields ps)) as [bs|]; [|left; auto].
   right. exists m, ns, (Cursor.default_bank :: bs), x1, (known_info2 ac pc defs m (map snd (flat_map inode ns)) ns st0).
   split; [exact HI|]. split; [exact Hl|]. split; [exact (prepare_distinct _ _ _ P)|]. split; [exact Hres|].
   split; [exact (HKsym2 defs ac pc m ns st0)|]. split; [exact Hok|].
   split; [exact (HKdata2 defs ps ac pc m ns P st0)|]. split; [intros _; exact Hc|].
+  split.
+  { intros d Hd. rewrite Hsd, (init2_data_length _ _ _ _ _ E0). rewrite Hnd in Hd |- *. apply in_seq in Hd. rewrite seq_length. lia. }
   intro b. split.
   - unfold outT2, outF2. destruct (loop2S m (Cursor.default_bank :: bs) defs max_bits _ opt ns b 0 b x1) as [[x n]| |]; reflexivity.
   - reflexivity.
@@ -327,7 +339,7 @@ Proof. discriminate. Qed.
 Theorem assembleS2_off ac pc indexed defs ps b : wf2 false defs ps ->
   assembleS2 ac pc false indexed defs ps b = assemble2 indexed defs ps b.
 Proof.
-  intro Hwf. destruct (runs2 indexed defs ps ac pc false Hwf ft2) as [Hn|(m & ns & banks & x1 & K & HI & Hl & Hd & Hres & HKs & Hok & HKd & Hc & Hb)].
+  intro Hwf. destruct (runs2 indexed defs ps ac pc false Hwf ft2) as [Hn|(m & ns & banks & x1 & K & HI & Hl & Hd & Hres & HKs & Hok & HKd & Hc & _ & Hb)].
   - destruct (Hn b) as [-> ->]. reflexivity.
   - destruct (Hb b) as [-> ->]. apply lockstep2_out.
     exact (loop_off2 m banks defs max_bits ns K Hres HKs false Hok HKd Hc b x1 eq_refl HI).
@@ -342,18 +354,17 @@ Hypothesis Hwf : wf2 true defs ps.
 Notation ON b := (assembleS2 true true true indexed defs ps b).
 Notation OFF b := (assemble2 indexed defs ps b).
 
-(* FULL STATEMENT (as for the Resolver fragment): for every budget b,  ON b = OFF b  \/  the one-pass situation (at
-   b = 1: the unoptimised run fails; at b >= 2: same result in exactly two passes)  \/  (2 <= b and neither run is Ok).
-   Proved here: everything except, in the last alternative, that OFF b is not Ok (it needs the replay lemma of
-   Proofs/ResolverSFrameP.v lifted to cursors and banks). *)
-Theorem switch2_partial b :
+(* the switch theorem on the Resolver2 fragment: for every budget b, the two settings give the identical answer; or the
+   one-pass situation (b = 1: the unoptimised run fails, the optimised one, if it is Ok, reports 1 pass; b >= 2: the same
+   result in exactly two passes); or b >= 2 and neither run is Ok. *)
+Theorem switch2_cases b :
   ON b = OFF b \/
   (b = 1%nat /\ OFF b = Err /\ forall r, ON b = Ok r -> r_iters r = 1%nat) \/
   ((2 <= b)%nat /\ exists r, ON b = Ok r /\ r_iters r = 1%nat /\ OFF b = Ok (set_iters r 2)) \/
-  ((2 <= b)%nat /\ forall r, ON b <> Ok r).
+  ((2 <= b)%nat /\ (forall r, ON b <> Ok r) /\ (forall r, OFF b <> Ok r)).
 Proof.
   destruct (runs2 indexed defs ps true true true Hwf (fun _ => conj eq_refl eq_refl))
-    as [Hn|(m & ns & banks & x1 & K & HI & Hl & Hd & Hres & HKs & Hok & HKd & Hc & Hb)].
+    as [Hn|(m & ns & banks & x1 & K & HI & Hl & Hd & Hres & HKs & Hok & HKd & Hc & Hrange & Hb)].
   - left. destruct (Hn b) as [-> ->]. reflexivity.
   - destruct (Hb b) as [ET EF]. rewrite ET, EF. clear Hb ET EF.
     destruct (loop_cases2 m banks defs max_bits ns K Hres HKs true Hok HKd Hc b x1 HI) as [L|O].
@@ -366,20 +377,30 @@ Proof.
         destruct (Output.output_stage (Z.to_N max_bits) banks vs) as [[bits items]| |]; try discriminate.
         inversion Hr; subst. reflexivity.
       * assert (Hb2 : (2 <= b)%nat) by lia.
+        assert (FL : (3 <= b)%nat -> forall x3, run_passS m banks defs max_bits K true true false ns x1 = Ok (x3, Resolved) ->
+                       Inv2 m defs max_bits ns K true x3 -> run_pass m banks defs max_bits false ns (ss x3) = Ok (ss x3, Resolved)).
+        { intros _ x3 HT3 _. unfold run_passS in HT3. unfold run_pass.
+          destruct (Hc eq_refl) as (Ns & Ni & Nd).
+          exact (proj1 (replay_pass2 m banks defs max_bits ns K Hres HKs Hok HKd (Hc eq_refl) Hd true false ns (fun y Hy => Hy) Ni Nd
+                          x1 (Cursor.init_cursor banks) None x3 HI Hl Hrange HT3)). }
         destruct (loop2S m banks defs max_bits K true ns b 0 b x1) as [[x' n]| |] eqn:ET.
         -- destruct (one_pass_fwd2 m banks defs max_bits ns K Hres HKs true Hok HKd Hc Hd b x1 _ _ O Hl Hb2 x' n eq_refl) as [-> EF].
            rewrite EF. cbn [outT2 outF2].
            destruct (out_nodes (ss x') ns) as [vs| |]; [|left; reflexivity|left; reflexivity].
            destruct (Output.output_stage (Z.to_N max_bits) banks vs) as [[bits items]| |]; [|left; reflexivity|left; reflexivity].
            right. right. left. split; [exact Hb2|]. eexists. split; [reflexivity|]. split; reflexivity.
-        -- right. right. right. split; [exact Hb2|]. intros r Hr. discriminate Hr.
-        -- right. right. right. split; [exact Hb2|]. intros r Hr. discriminate Hr.
+        -- right. right. right. split; [exact Hb2|]. split; [intros r Hr; discriminate Hr|].
+           intros r Hr. destruct (loop2 m banks defs max_bits ns b 0 b (ss x1)) as [[st n]| |] eqn:EF; try discriminate Hr.
+           destruct (one_pass_bwd2 m banks defs max_bits ns K Hres HKs true Hok HKd Hc b x1 _ _ O Hb2 FL st n eq_refl) as (x' & ET' & _). discriminate ET'.
+        -- right. right. right. split; [exact Hb2|]. split; [intros r Hr; discriminate Hr|].
+           intros r Hr. destruct (loop2 m banks defs max_bits ns b 0 b (ss x1)) as [[st n]| |] eqn:EF; try discriminate Hr.
+           destruct (one_pass_bwd2 m banks defs max_bits ns K Hres HKs true Hok HKd Hc b x1 _ _ O Hb2 FL st n eq_refl) as (x' & ET' & _). discriminate ET'.
 Qed.
 
 (* whenever both settings succeed: identical bits, items, banks, symbols and nodes; pass counts equal or (1, 2) *)
 Theorem switch2_same_result b r r' : ON b = Ok r -> OFF b = Ok r' -> set_iters r 0 = set_iters r' 0 /\ counts_ok (r_iters r) (r_iters r').
 Proof.
-  intros H1 H2. destruct (switch2_partial b) as [E|[(-> & E & _)|[(Hb & r0 & E1 & E2 & E3)|(Hb & E)]]].
+  intros H1 H2. destruct (switch2_cases b) as [E|[(-> & E & _)|[(Hb & r0 & E1 & E2 & E3)|(Hb & E & _)]]].
   - rewrite E, H2 in H1. inversion H1; subst. split; [reflexivity|now left].
   - rewrite E in H2. discriminate.
   - rewrite E1 in H1. inversion H1; subst r0. rewrite E3 in H2. inversion H2; subst r'. split; [reflexivity|]. right. cbn. auto.
@@ -389,11 +410,29 @@ Qed.
 (* every success with the optimisation at a budget >= 2 is a success without it *)
 Theorem switch2_fwd b r : (2 <= b)%nat -> ON b = Ok r -> exists n', OFF b = Ok (set_iters r n') /\ counts_ok (r_iters r) n'.
 Proof.
-  intros Hb H1. destruct (switch2_partial b) as [E|[(-> & _)|[(_ & r0 & E1 & E2 & E3)|(_ & E)]]].
+  intros Hb H1. destruct (switch2_cases b) as [E|[(-> & _)|[(_ & r0 & E1 & E2 & E3)|(_ & E & _)]]].
   - exists (r_iters r). rewrite <- E, H1. split; [destruct r; reflexivity|now left].
   - lia.
   - rewrite E1 in H1. inversion H1; subst r0. exists 2%nat. split; [exact E3|right; auto].
   - exfalso. exact (E r H1).
+Qed.
+
+(* every success without the optimisation is a success with it, at every budget *)
+Theorem switch2_bwd b r' : OFF b = Ok r' -> exists r, ON b = Ok r /\ set_iters r 0 = set_iters r' 0 /\ counts_ok (r_iters r) (r_iters r').
+Proof.
+  intro H2. destruct (switch2_cases b) as [E|[(-> & E & _)|[(Hb & r0 & E1 & E2 & E3)|(Hb & _ & E)]]].
+  - exists r'. rewrite E. split; [exact H2|]. split; [reflexivity|now left].
+  - rewrite E in H2. discriminate.
+  - exists r0. split; [exact E1|]. rewrite E3 in H2. inversion H2; subst r'. split; [reflexivity|]. right. cbn. auto.
+  - exfalso. exact (E r' H2).
+Qed.
+
+(* for budgets >= 2 the same programs succeed *)
+Theorem switch2_success b : (2 <= b)%nat -> ((exists r, ON b = Ok r) <-> (exists r', OFF b = Ok r')).
+Proof.
+  intro Hb. split.
+  - intros [r H]. destruct (switch2_fwd b r Hb H) as (n' & H' & _). eauto.
+  - intros [r' H]. destruct (switch2_bwd b r' H) as (r & H' & _). eauto.
 Qed.
 End Switch2.
 
